@@ -62,13 +62,29 @@ def cases(ctx):
                 cmds[k] = (cmds[k][0], [cmds[k][1][0] + 8 * tol] + cmds[k][1][1:])
                 out.append((d, pathsem.fmt(cmds), tol, 'near_miss'))
             out.append((d, d, tol, 'identical'))
+    # inexact images: a rotated / scaled copy with coordinates rounded to nd decimals, tolerance of the same order
+    BIG = ['M0,0 L120,10 L90,130 L-20,80 Z', 'M10,0 L200,40 L150,90 Z', 'M0,0 L100,0 L100,70 L40,110 L0,60 Z']
+    extra = []
+    for _ in range(ctx.n(120, 3000)):
+        d = rng.choice(BIG)
+        th, sc, nd = rng.uniform(0.1, 3.0), rng.choice([1.0, 1.37, 0.73, 2.1]), rng.choice([1, 2, 3])
+        A = Affine2D.identity().translate(rng.randint(-20, 20), rng.randint(-20, 20)).rotate(th).scale(sc)
+        cmds = pathsem.parse_simple(transformed_d(d, A))
+        d2 = pathsem.fmt([(c, [round(v, nd) for v in a]) for c, a in cmds])
+        extra.append((d, d2, rng.choice([0.6, 1.0, 2.0]) * 10 ** -nd, 'inexact_image'))
+    # the same numbers once as absolute and once as relative commands: different outlines
+    for d in ['M0,0 L10,0 L10,10 L0,10 Z', 'M2,1 L8,3 L5,9 Z', 'M1,1 C2,3 4,3 5,1 L3,-2 Z']:
+        cm = pathsem.parse_simple(d)
+        d2 = pathsem.fmt([(c if k == 0 else c.lower(), a) for k, (c, a) in enumerate(cm)])
+        extra.append((d, d2, 0.01, 'abs_vs_rel')); extra.append((d2, d, 0.1, 'abs_vs_rel'))
     rng.shuffle(out)
-    return out[:ctx.n(160, 100000)]
+    return out[:ctx.n(160, 100000)] + extra
 
 def corr(ctx):
     m = ctx.model()
     stats = {'evaluations': 0, 'nontrivial': set(), 'samples': [], 'disagreements': [], 'distribution': {}}
     for d1, d2, tol, kind in cases(ctx):
+        if kind == 'inexact_image': continue      # decisions at the tolerance boundary depend on float rounding: judged, not compared
         impl = impl_between(d1, d2, tol)
         mod = m.call('affine_between', [cmds_of(d1), cmds_of(d2), F(tol)])
         stats['evaluations'] += 1
@@ -99,6 +115,16 @@ def judge(d1, d2, tol, kind):
     if A is not None:
         # applying A to s1's outline must reproduce s2's outline command for command within tol
         M = Affine2D(*A)
+        # (i) command for command in the normal form the search itself compares (relative commands): every argument of
+        #     A(s1) within tol of the corresponding argument of s2
+        r1, r2 = rel_cmds(d1), rel_cmds(d2)
+        if [c for c, _ in r1] == [c for c, _ in r2]:
+            for k, ((c, a1), (_, a2)) in enumerate(zip(r1, r2)):
+                for i in range(0, len(a1) - 1, 2):
+                    mp = M.map_point((a1[i], a1[i + 1])) if c.isupper() else M.map_vector((a1[i], a1[i + 1]))
+                    if abs(mp[0] - a2[i]) > tol * (1 + 1e-9) + 1e-12 or abs(mp[1] - a2[i + 1]) > tol * (1 + 1e-9) + 1e-12:
+                        return ('a reported transform reproduces the second outline within the given tolerance, command for command',
+                                {'command': k, 'target': [a2[i], a2[i + 1]], 'tolerance': tol}, {'A': A, 'mapped': [mp[0], mp[1]]})
         s1 = pathsem.interp(rel_cmds(d1)); s2 = pathsem.interp(rel_cmds(d2))
         if len(s1) != len(s2): return ('a reported transform maps s1 onto s2 command for command', 'same command structure', {'A': A})
         for a, b in zip(s1, s2):
@@ -112,8 +138,8 @@ def judge(d1, d2, tol, kind):
         return ('identical shapes yield the identity', [1, 0, 0, 1, 0, 0], A)
     if kind == 'translate' and A is None:
         return ('an exact translation of a shape is always found', 'a translation', None)
-    if kind == 'near_miss' and A is not None:
-        return ('no transform is reported for outlines differing beyond the tolerance', None, A)
+    # near-miss pairs: a transform may legitimately exist (e.g. a non-uniform scale absorbing the perturbation); what must
+    # never happen is a reported transform that does not map s1 onto s2 within the tolerance - checked by (i) above
     return None
 
 def search(ctx, broken, disagreements):
